@@ -17,7 +17,7 @@ import random
 
 from ..common import Run, MachineryError, quiet_pygaps, exc_class
 from .. import tlc
-from ..models_common import FORMS, frac, fpar, par_key, build, shape_arg, call, per_point, denc as dec_enc, history_records
+from ..models_common import FORMS, frac, fpar, par_key, build, shape_arg, call, per_point, denc as dec_enc, history_records, elementwise_records, wrapper_elementwise_records
 
 PID = "C10"
 # float64 tolerances of the table replay, by accuracy class of the library routine (spec: InvClass)
@@ -236,7 +236,8 @@ def judge_obs(run, model, calc, entry, form, ans, info, zinfo, hinfo):
 
 
 def relational(run, grid, meta, rng, thorough):
-    recs, ctx = [], []
+    """-> [(record, handler)] for the batch oracle call"""
+    items = []
     for model in sorted(grid):
         calc = meta[model]["calc"]
         entries = sorted(grid[model], key=lambda e: par_key(e["par"]))
@@ -250,39 +251,63 @@ def relational(run, grid, meta, rng, thorough):
             for form in FORMS:
                 obs = (observe_loading_explicit if calc == "loading" else observe_pressure_explicit)(mdl, args, form, H)
                 pts, zero, hen, info, zinfo, hinfo = obs
-                recs.append({"k": "obs", "model": model, "par": entry["par"], "pts": pts, "zero": zero, "hen": hen})
-                ctx.append((model, calc, entry, form, info, zinfo, hinfo))
                 run.count(("obs", model, par_key(entry["par"]), form), n=len(pts) + 2)
-    answers = tlc.oracle("ModelsOracle", recs, timeout=600)
-    judged = 0
-    for (model, calc, entry, form, info, zinfo, hinfo), ans in zip(ctx, answers):
-        judged += 1
-        judge_obs(run, model, calc, entry, form, ans, info, zinfo, hinfo)
-        if calc == "pressure":
-            run.add("pressure_explicit_points_before_turning_point", int(ans["prefix"]))
-    run.add("traces_validated_against_impl", judged)
-    if recs:
-        k = rng.randrange(len(recs))
-        run.sample({"kind": "observation record judged by ModelsOracle", "record": recs[k], "answer": answers[k]})
+
+                def handler(ans, model=model, calc=calc, entry=entry, form=form, info=info, zinfo=zinfo, hinfo=hinfo):
+                    judge_obs(run, model, calc, entry, form, ans, info, zinfo, hinfo)
+                    if calc == "pressure":
+                        run.add("pressure_explicit_points_before_turning_point", int(ans["prefix"]))
+                items.append(({"k": "obs", "model": model, "par": entry["par"], "pts": pts, "zero": zero, "hen": hen}, handler))
+    return items
 
 
 # ------------------------------------------------------------------ 3b. history on one model object
-def histories(run, meta, rng, thorough):
-    plans = tlc.oracle("ModelsOracle", [{"k": "histplan"}], timeout=600)[0]["plans"]
+def histories(run, plans, meta, rng, thorough):
     items = []
     for model in sorted(plans):
         calc = meta[model]["calc"]
         chain = [("loading", "args"), ("pressure", "loading")] if calc == "loading" else [("pressure", "args"), ("loading", "pressure")]
         items += history_records(run, plans[model], model, calc, chain, ("scalar", "1d"), 6 if thorough else 2, rng)
-    answers = tlc.oracle("ModelsOracle", [r for r, _ in items], timeout=600)
-    for (_, handler), ans in zip(items, answers):
-        handler(ans)
-    run.add("traces_validated_against_impl", len(items))
     run.set(histories_replayed=len(items))
-    if items:
-        r = dict(items[0][0])
-        r["evals"] = r["evals"][:2] + ["..."]
-        run.sample({"kind": "history on one model object judged by ModelsOracle!HistStep", "record": r})
+    return items
+
+
+# ------------------------------------------------------------------ 3c. elementwise: unsorted arrays with repeats
+def elementwise(run, plan, meta, rng, thorough):
+    import pygaps
+    items = []
+    patterns = plan["patterns"]
+    for model in sorted(plan["args"]):
+        calc = meta[model]["calc"]
+        chain = [("loading", "args"), ("pressure", "loading")] if calc == "loading" else [("pressure", "args"), ("loading", "pressure")]
+        items += elementwise_records(run, model, calc, plan["args"][model], patterns, chain, ("ndarray", "series"),
+                                     6 if thorough else 2, 4 if thorough else 2, rng)
+        # through the ModelIsotherm wrapper, in the isotherm's own units: ndarray, list, Series
+        entries = sorted(plan["args"][model], key=lambda e: par_key(e["par"]))
+        for e in ([entries[rng.randrange(len(entries))]] if not thorough else [entries[rng.randrange(len(entries))] for _ in range(3)]):
+            mdl = build(model, e["par"])
+            iso = pygaps.ModelIsotherm(model=build(model, e["par"]), material="verif_mat_c10_elem", adsorbate="nitrogen", temperature=77.344,
+                                       pressure_mode="absolute", pressure_unit="bar", loading_basis="molar", loading_unit="mmol",
+                                       material_basis="mass", material_unit="g")
+            xs = [float(frac(x)) for x in e["xs"]]
+            if calc == "loading":
+                ps = xs
+                ns = [call(mdl.loading, p, 1) for p in ps]
+            else:
+                ns_ = xs
+                ps_o = [call(mdl.pressure, n, 1) for n in ns_]
+                if any(o.st != 0 for o in ps_o):
+                    continue
+                ps, ns = [float(o.vals[0]) for o in ps_o], None
+            pairs = [("loading_at", "loading", ps)]
+            if calc == "loading":
+                if all(o.st == 0 for o in ns):
+                    pairs.append(("pressure_at", "pressure", [float(o.vals[0]) for o in ns]))
+            else:
+                pairs.append(("pressure_at", "pressure", xs))
+            items += wrapper_elementwise_records(run, iso, mdl, model, pairs, patterns, 2 if thorough else 1, rng)
+    run.set(elementwise_records=len(items))
+    return items
 
 
 # ------------------------------------------------------------------ 4. ModelIsotherm wrapper
@@ -388,8 +413,8 @@ def main(tier, seed):
     if res["distinct"] < 1000:
         raise MachineryError(f"ModelsMC explored only {res['distinct']} states; the exact grid has > 1000 rows")
 
-    ans = tlc.oracle("ModelsOracle", [{"k": "table"}, {"k": "grid"}], timeout=600)
-    table, meta, grid = ans[0]["table"], ans[0]["meta"], ans[1]["grid"]
+    ans = tlc.oracle("ModelsOracle", [{"k": "table"}, {"k": "grid"}, {"k": "histplan"}, {"k": "elemplan"}], timeout=600)
+    table, meta, grid, plans, eplan = ans[0]["table"], ans[0]["meta"], ans[1]["grid"], ans[2]["plans"], ans[3]
     if len(table) != 16 or len(grid) != 16:
         raise MachineryError("the specification does not list the 16 models of the property")
     import pygaps.modelling as pm
@@ -412,8 +437,20 @@ def main(tier, seed):
     replay_table(run, table, meta, rng, stats)
     run.set(table_rows=sum(len(e["rows"]) for m in table for e in table[m]),
             table_worst_relative_error={f"{k[0]}.{k[1]}": float(f"{v:.3g}") for k, v in sorted(stats.items()) if v > 1e-12})
-    relational(run, grid, meta, rng, thorough)
-    histories(run, meta, rng, thorough)
+    items = relational(run, grid, meta, rng, thorough) + histories(run, plans, meta, rng, thorough) + elementwise(run, eplan, meta, rng, thorough)
+    # one TLC invocation judges every recorded observation (obs / hist / elem records)
+    answers = tlc.oracle("ModelsOracle", [r for r, _ in items], timeout=900)
+    for (_, handler), a in zip(items, answers):
+        handler(a)
+    run.add("traces_validated_against_impl", len(items))
+    for kind in ("obs", "hist", "elem"):
+        idx = [i for i, (r, _) in enumerate(items) if r["k"] == kind]
+        if idx:
+            k = idx[rng.randrange(len(idx))]
+            r = dict(items[k][0])
+            if kind == "hist":
+                r["evals"] = r["evals"][:2] + ["..."]
+            run.sample({"kind": f"{kind} record judged by ModelsOracle", "record": r, "answer": answers[k]}, limit=8)
     wrapper(run, table, rng, thorough)
 
     run.set(exhaustive=False,
@@ -424,6 +461,9 @@ def main(tier, seed):
                  "(b2) histories on one model object (evaluate, evaluate another instance of the class, overwrite every parameter in place, re-fit in place; "
                  "re-evaluate the same arguments after each step) for " + ("6" if thorough else "2") + " seeded parameter-vector pairs per model, judged against a fresh model "
                  "with the current parameters (Models!HistStep); "
+                 "(b3) elementwise clause: unsorted 6-element arrays with a repeated element (patterns enumerated by the specification: permutations that are not their own inverse) "
+                 "as ndarray and pandas.Series on loading()/pressure() of every model, and as ndarray/list/Series through ModelIsotherm.loading_at/pressure_at, each position "
+                 "judged against the scalar call (Models!ElemStep); "
                  "(c) ModelIsotherm.loading_at/pressure_at for 4 models x 2 native unit systems x requested pressure/loading/material representations. "
                  "non-trivial = not the zero row / not the native representation; distinct = distinct (part, model, parameters, form, function, row)")
     run.assume("the model equations transcribed in spec/Models.tla (from the formula/docstring of each model class) are the reference for 'the model'")
